@@ -20,14 +20,20 @@ def claimAmountOut (amount : Nat) (premium : Int) : Nat := addPremium amount pre
 def openingAmountIn (amount : Nat) (premium : Int) : Nat := addPremium amount premium
 
 inductive FeeVerdict where
-  | pay | premiumTooHigh | notEnoughSpendable | feeTooHigh
+  | pay | premiumTooHigh | premiumTooLow | notEnoughSpendable | feeTooHigh
   deriving DecidableEq, Repr
+
+/-- `checkPremiumLowerBound` (since /repo fix "refuse a premium that takes the whole amount away"):
+    `amount > MaxInt64 || premium <= -int64(amount)` -/
+def premiumTooLow (amount : Nat) (premium : Int) : Bool :=
+  decide (amount > 9223372036854775807) || decide (premium ≤ wrapI64 (-(u64ToI64 amount)))
 
 /-- swap-out initiator on receipt of the agreement: CheckPremiumAmount then the bounds of
     PayFeeInvoiceAction.  `expectedFee` is the node's own opening-fee estimate; `uint64(float64(e)*3)` is
     exact for e < 2^51 (assumed by the callers of the theorems, named there). -/
 def feeDecision (amount : Nat) (premium limit : Int) (feeMsat spendable expectedFee : Nat) : FeeVerdict :=
   if premium > limit then .premiumTooHigh
+  else if premiumTooLow amount premium then .premiumTooLow
   else if spendable < wrapU64 (wrapU64 (amount * 1000) + feeMsat) then .notEnoughSpendable
   else if feeMsat / 1000 > expectedFee * 3 then .feeTooHigh
   else .pay
@@ -35,6 +41,8 @@ def feeDecision (amount : Nat) (premium limit : Int) (feeMsat spendable expected
 /-- swap-in initiator on receipt of the agreement: CheckPremiumAmount, then it locks `openingAmountIn` and
     asks for `amount*1000` msat -/
 def inDecision (amount : Nat) (premium limit : Int) : Option (Nat × Nat) :=
-  if premium > limit then none else some (openingAmountIn amount premium, wrapU64 (amount * 1000))
+  if premium > limit then none
+  else if premiumTooLow amount premium then none
+  else some (openingAmountIn amount premium, wrapU64 (amount * 1000))
 
 end PsVerif.Model
